@@ -396,6 +396,22 @@ def execute(case, ctx):
                                     key = "auto:T:dt_last_done-zeroed-on-integrate-entry"
                             except (rebound.Escape, rebound.NoParticles, rebound.Encounter, rebound.Collision, rebound.GenericError, RuntimeError):
                                 pass
+                    if key == "auto:T" and op["exact"] == 1 and sa[j]._status == -2 and abs(int(Rj.steps_done) - int(O.steps_done)) <= 1 \
+                            and abs(Rj.t - O.t) <= 1e-12 * abs(tgt) and abs(Rj.t - tgt) <= 1e-12 * abs(tgt) and abs(O.t - tgt) <= 1e-12 * abs(tgt):
+                        # same mechanism as the C07 finding: the snapshot was taken at the boundary where integrate() had already shortened dt for
+                        # its last step and persisted status LAST_STEP; the restart re-enters integrate() in state RUNNING, so one of the two runs
+                        # accepts t within 1e-12 of the target while the other takes one more step of ~1e-16 to land on it exactly
+                        pa, pb = rb.particles_raw(Rj), rb.particles_raw(O)
+                        close = len(pa) == len(pb)
+                        if close:
+                            import struct as _st
+                            for q in range(0, len(pa), rb.PART.size):
+                                va, vb = _st.unpack_from("<6d", pa, q), _st.unpack_from("<6d", pb, q)
+                                if any(abs(x - y) > 1e-12 * (abs(x) + abs(y) + 1e-300) for x, y in zip(va, vb)):
+                                    close = False
+                                    break
+                        if close:
+                            key = "auto:T:restart-snapshot-taken-in-LAST_STEP"
                     viol("continue", "restart from a snapshot taken inside integrate() ends on a different trajectory",
                          "auto#%d: snapshot %d of %d (integrator %s), target %r: t %r vs %r" % (i, j, nb, cfg["integrator"], tgt, Rj.t, O.t), key=key)
                     if not ctx.known(key):
